@@ -1,4 +1,4 @@
-SPECIFICATION CSpec
+SPECIFICATION TSpec
 CONSTANTS
   Series = {"s1", "s2"}
   TOff = 0
@@ -18,15 +18,15 @@ CONSTANTS
   AllowKF = {}
   KFInitOpts = TRUE
   KFV1Hist = TRUE
-  MaxOps = 30
+  MaxOps = 100
   Balanced = FALSE
   EmitMode = "none"
   BigSeries = {"s2"}
-  ScriptName = "s1"
-  MaxCrashes = 2
-  CAllowKF = {"KF-C03-1", "KF-C03-2", "KF-C03-3"}
-  CrashOdds = 150
-  RecOdds = 25
-  CEmit = "walk"
-INVARIANTS Survive FilesAgree BlocksAgree OpenCleans WalShape CEmitWalk
+  ScriptName = "free"
+  MaxCrashes = 0
+  CAllowKF = {"KF-C03-3"}
+  CrashOdds = 1
+  RecOdds = 1
+  CEmit = "none"
+VIEW TView
 CHECK_DEADLOCK FALSE
